@@ -6,6 +6,7 @@ import (
 	"runtime"
 	"sort"
 	"strings"
+	"time"
 
 	"verif/sched"
 )
@@ -32,6 +33,8 @@ type Scenario struct {
 	// received): the thread is blocked at a scheduling point until then, and sequential orders in which it does not hold
 	// at the operation's turn are infeasible.
 	Guards map[[2]int]func(sys any) bool
+	// SeqStuck: set by sequentialOutcomes to the order of whole operations that did not return (see seqStuckAfter)
+	SeqStuck [][2]int
 	// Accept lists outcomes that the sequential reference does not produce but the property allows (rare).
 }
 
@@ -44,6 +47,10 @@ type callRec struct {
 // sequentialOutcomes computes, by brute force, every (results, final observation) that some
 // interleaving of WHOLE operations (respecting per-thread order) produces on the real structure run
 // sequentially: the linearizability reference.
+// seqStuckAfter: a sequential run of a handful of in-memory operations takes microseconds; one that has not returned
+// after this long is blocked for good (the goroutine is left behind, the scenario is reported and abandoned).
+const seqStuckAfter = 20 * time.Second
+
 func (sc *Scenario) sequentialOutcomes() map[string][][][2]int {
 	out := map[string][][][2]int{}
 	n := len(sc.Threads)
@@ -62,18 +69,36 @@ func (sc *Scenario) sequentialOutcomes() map[string][][][2]int {
 				order = order[:len(order)-1]
 			}
 		}
-		if done {
-			sys := sc.New()
-			res := make([][]string, n)
-			for _, o := range order {
-				op := sc.Threads[o[0]][o[1]]
-				if g := sc.Guards[o]; g != nil && !g(sys) {
-					return // this operation could not have run at that point: not a sequential behaviour
-				}
-				res[o[0]] = append(res[o[0]], op.Run(sys))
+		if done && sc.SeqStuck == nil {
+			// on its own goroutine, watched: whole operations run one after the other on one thread can still block for good
+			// (an operation that waits for a lock its own caller holds), and that must end the scenario, not hang the run
+			type seqRes struct {
+				key string
+				ok  bool
 			}
-			key := renderOutcome(res, sc.Observe(sys))
-			out[key] = append(out[key], append([][2]int{}, order...))
+			ch := make(chan seqRes, 1)
+			ord := append([][2]int{}, order...)
+			go func() {
+				sys := sc.New()
+				res := make([][]string, n)
+				for _, o := range ord {
+					op := sc.Threads[o[0]][o[1]]
+					if g := sc.Guards[o]; g != nil && !g(sys) {
+						ch <- seqRes{} // this operation could not have run at that point: not a sequential behaviour
+						return
+					}
+					res[o[0]] = append(res[o[0]], op.Run(sys))
+				}
+				ch <- seqRes{renderOutcome(res, sc.Observe(sys)), true}
+			}()
+			select {
+			case r := <-ch:
+				if r.ok {
+					out[r.key] = append(out[r.key], ord)
+				}
+			case <-time.After(seqStuckAfter):
+				sc.SeqStuck = ord
+			}
 		}
 	}
 	rec()
